@@ -147,6 +147,24 @@ class B:
             return ds[0]
         return None
 
+    def ret_sources(self):
+        """locals whose value is handed to the return slot by plain moves (the return slot itself included): where a spliced-in helper's own
+        result slot ends up"""
+        r = self.__dict__.get('_ret_srcs')
+        if r is None:
+            r = {0}
+            for _ in range(3):
+                for blk in self.blocks:
+                    for st in blk['s']:
+                        if st['k'] == '=' and not st['pl'].get('p') and st['pl']['l'] in r and st['rv']['k'] == 'use' and st['rv']['op'].get('k') in ('cp', 'mv') \
+                                and not st['rv']['op']['pl'].get('p'):
+                            r.add(st['rv']['op']['pl']['l'])
+            self.__dict__['_ret_srcs'] = r
+        return r
+
+    def is_ret_slot(self, l):
+        return l in self.ret_sources()
+
     def reaching_def(self, l, at):
         """the only whole-local definition of l that can reach the position at=(bb, idx) (idx None: the block's terminator);
         None when several can (or none).  Reaching definitions over the CFG; a call's destination is defined on its return edge only."""
